@@ -158,6 +158,12 @@ def check(ctx):
     m1.caught("SwOneShot", "C17_quick.cfg")
     traces = traces_for(ctx.seed, ctx.pick(400, 6000), ctx.pick(9, 14))
     bad, ms = judge(ctx, "Mon_C17", traces, "eventgroup histories", payload)
+    from .common import spec_to_code
+
+    def replay_x(sched):
+        return run_schedule([{"t": 0, "j": 0, "op": "eg_create"}] + sched, 0, EVENTS, {1: 7, 2: 9}), []
+    sim = spec_to_code(ctx, {"Inputs": "C17_InputsX", "Match": "<<>>", "Cfg": "C17_X", "Sw": "AllOff", "MaxEv": 7, "MaxIdle": 3, "MaxPerPoll": 2},
+                       ctx.pick(25, 400), 90, replay_x, "Mon_C17", mon_cfg(0))
     acc = total = 0
     for interval in (0, 2, 3):
         plain = [t for t in traces if t["interval"] == interval and not any(t["burn"].values())
@@ -166,7 +172,7 @@ def check(ctx):
         acc += a
         total += t
     cov = dict(states=m1.states, transitions=m1.trans, traces_validated_against_impl=acc, monitor_traces=len(traces),
-               monitor_failures=bad, monitor_states=ms, conformance_traces=total, spec_drift=total - acc, tlc_runs=m1.runs,
+               monitor_failures=bad, monitor_states=ms, conformance_traces=total, spec_drift=total - acc, tlc_runs=m1.runs, **sim,
                exhaustive=False,
                samples=[{"interval": traces[0]["interval"], "schedule": traces[0]["sched"][:8], "trace": traces[0]["ev"][:16]}],
                rule="TLC: SimpleEventgroup of SD.tla (endpoint set, has_clients, initial / explicit / cyclic notification tasks "
